@@ -227,8 +227,8 @@ func kindGJ(g orb.Geometry) string {
 }
 
 func init() {
-	opts := &gen.GeomOpts{Float: gen.FloatFinite, Empty: true, EmptyParts: true, RingBound: true}
-	optsOrd := &gen.GeomOpts{Float: gen.FloatOrdinary, Empty: true, EmptyParts: true, RingBound: true}
+	opts := &gen.GeomOpts{Float: gen.FloatFinite, Empty: true, EmptyParts: true, RingBound: true, Huge: true}
+	optsOrd := &gen.GeomOpts{Float: gen.FloatOrdinary, Empty: true, EmptyParts: true, RingBound: true, Huge: true}
 	genGeom := func(r *h.Rand) orb.Geometry {
 		o := opts
 		if r.Bool() {
